@@ -80,7 +80,7 @@ func runC19(r *run) {
 				chain = append(chain, s)
 			}
 			v := c19Values[g.intn(len(c19Values))]
-			pos := g.intn(11)
+			pos := g.intn(12)
 			if pos == 9 && k == 0 {
 				pos = 0 // the filter tag needs a chain
 			}
@@ -118,6 +118,11 @@ func runC19(r *run) {
 			emit(caseT{"reentrant", append(a, "-", "-", hx(c[1]))})
 		}
 		// unknown names
+		wf := &world{files: []map[string]string{{"badf.tpl": "A{{ sv|nosuchfilter }}B", "badt.tpl": "A{% nosuchtag %}B", "good.tpl": "G"}}}
+		for _, src := range []string{"{% include \"badf.tpl\" if_exists %}", "{% include \"badt.tpl\" if_exists %}", "{% set n = \"badf.tpl\" %}{% include n if_exists %}", "{% set n = \"badt.tpl\" %}x{% include n if_exists %}y",
+			"{% include \"badf.tpl\" %}", "{% ssi \"badt.tpl\" parsed %}", "{% import \"badf.tpl\" m %}", "{% extends \"badt.tpl\" %}"} {
+			emit(caseT{"unknown", wf.args(src, c19Ctx())})
+		}
 		for _, src := range []string{"{{ sv|nosuchfilter }}", "{{ sv|upper|nosuch:1 }}", "{% nosuchtag %}", "{% if sv|nosuch %}x{% endif %}", "{% filter nosuch %}x{% endfilter %}", "{% filter upper|nosuch %}x{% endfilter %}"} {
 			emit(caseT{"unknown", w.args(src, c19Ctx())})
 		}
@@ -218,6 +223,14 @@ func execC19(r *run, c caseT) {
 		// a filter binds tighter than the unary minus: -5|f is -(5|f)
 		ref = strings.Replace(ref, "rv", "-rv", 1)
 	}
+	if pos == 11 {
+		// a parameter default: evaluated at the call, in the scope of the call's definition as it is then
+		src = "{% macro m(p=" + expr + ") %}<{{ p }}>{% endmacro %}{% set ps = \"Q\" %}{% set pn = 3 %}{% set pv = \"#\" %}{% set sl = \"1:\" %}{{ m() }}"
+		ref = "{% macro m(p) %}<{{ p }}>{% endmacro %}{{ m(rv) }}"
+		if neg {
+			ref = "{% macro m(p) %}<{{ p }}>{% endmacro %}{{ m(-rv) }}"
+		}
+	}
 	if pos == 10 {
 		// one pair among several of a with tag: the other pairs rebind names the chain's
 		// arguments use; every pair is evaluated in the enclosing scope
@@ -244,6 +257,9 @@ func execC19(r *run, c caseT) {
 	}
 	// the same chain through the public ApplyFilter
 	gc := ctx.goContext()
+	if pos == 11 {
+		gc["ps"], gc["pn"], gc["pv"], gc["sl"] = "Q", 3, "#", "1:"
+	}
 	var cur *pongo2.Value
 	switch {
 	case v[0] == '"':
